@@ -111,6 +111,80 @@ def uncooperative(x, k=1):
     return x
 
 
+class Unloadable:
+    """a result the parent cannot rebuild: the stream of a remote worker ends there although the child carries on"""
+
+    def __reduce__(self):
+        return (_refuse_to_load, ())
+
+
+def _refuse_to_load():
+    raise RuntimeError('cannot be rebuilt on this side')
+
+
+def unloadable_then_busy(x, k=1):
+    if x == 1:
+        return Unloadable()
+    t0 = time.time()
+    while time.time() - t0 < 60:       # interruptible: a graceful terminate ends it
+        time.sleep(0.01)
+    return x
+
+
+def remote_outcome_known_child_busy(res):
+    """restart() of a persistent REMOTE worker whose final outcome is already known on the parent side (its result stream
+    broke on a result that cannot be rebuilt) while the child is still busy with a queued input: the old child must be
+    stopped before the new incarnation is returned - or restart() must raise."""
+    from pyworkers.persistent_remote import PersistentRemoteWorker
+    from pyworkers.remote_server import spawn_server
+    server = spawn_server(('127.0.0.1', 0))
+    case = dict(real='remote', state='outcome-known-child-busy', restarts=1)
+    why = None
+    try:
+        w = PersistentRemoteWorker(unloadable_then_busy, name='wname', userid=77, host=server.addr)
+        w.enqueue(1); w.enqueue(2)
+        t0 = time.time()
+        while w._child.is_alive() and time.time() - t0 < 10:     # the frontend thread ends on the broken result
+            time.sleep(0.02)
+        old_id, old_pid, was_alive = w.id, w.pid, w.is_alive()
+        raised = None
+        try:
+            w.restart(timeout=0.5)
+        except RuntimeError as e:
+            raised = e
+        if raised is not None:
+            if not w.is_alive() or w.id != old_id:
+                why = f'restart raised {raised!r} but the old incarnation is no longer the live registered child'
+        else:
+            t1 = time.time()
+            while not pid_gone(old_pid) and time.time() - t1 < 3:
+                time.sleep(0.05)
+            if not pid_gone(old_pid):
+                why = f'restart() returned although the old child process {old_pid} is still running (it was alive before: {was_alive}): abandoned and replaced'
+            elif not w.is_alive() or w.id == old_id:
+                why = f'after restart(): alive={w.is_alive()}, identity changed={w.id != old_id}'
+            if not pid_gone(old_pid):
+                try:
+                    os.kill(old_pid, signal.SIGKILL)
+                except OSError:
+                    pass
+        try:
+            w.terminate(timeout=2, force=True)
+        except Exception:
+            pass
+    except Exception as e:   # noqa
+        import traceback
+        why = f'scenario raised {type(e).__name__}: {e} {traceback.format_exc()[-300:]}'
+    finally:
+        try:
+            server.terminate(force=True)
+        except Exception:
+            pass
+    res.count('real:remote:outcome-known-child-busy'); res.case(('real', 'remote', 'outcome-known-child-busy'), nontrivial=True, sample=dict(case, outcome=why or 'ok'))
+    if why:
+        res.violation(case, why)
+
+
 def pid_gone(pid):
     try:
         return open(f'/proc/{pid}/stat').read().split()[2] == 'Z'
@@ -300,4 +374,5 @@ def main(tier, seed, replay=None):
     for i in bad[:8]:
         res.tie('correspondence:restart', dict(case=repr(keep[i])[:800], term=terms[i][:800]))
     real_restarts(res, tier)
+    remote_outcome_known_child_busy(res)
     return res.finish()
